@@ -261,7 +261,8 @@ def parse_filter(filter):
     # parse actions and streamlines itself during the first parses): one
     # thread at a time.
     with _PARSE_LOCK:
-        return FilterAST(hs_filter.parseString(filter, parseAll=True)[0])
+        return FilterAST(hs_filter.parseWithTabs().parseString(
+            filter, parseAll=True)[0])
 
 
 ## --- Generate python to apply filter
